@@ -350,6 +350,47 @@ class OpaqueHyper:
         return [A_]
 
 
+class OpaqueStress(OpaqueHyper):
+    """stand-in for an inner material that is given by its stress (history dependent / non-conservative): P_ij(F) opaque and
+    A_ijkl = d P_ij / d F_kl as derivative atoms -- no major symmetry (A_ijkl and A_klij are different atoms)"""
+
+    def __init__(self, name="Ps", dim=3):
+        OpaqueHyper.__init__(self, name, dim)
+
+        def rule(nm, k):
+            base, ij, idx = nm.split("|")
+            lst = [int(v) for v in idx.split(",") if v] + [k]
+            return "%s|%s|%s" % (base, ij, ",".join(map(str, sorted(lst))))
+
+        ring.set_ofun_rule(name, rule)
+
+    def function(self, x):
+        raise ring.Undecided("a stress-based material has no energy")
+
+    def gradient(self, x, out=None):
+        F = x[0]
+        n = self.dim
+        P_ = np.empty(F.shape, dtype=object)
+        for t in np.ndindex(*F.shape[2:]):
+            a = self._args(F, t)
+            for i in range(n):
+                for j in range(n):
+                    P_[(i, j) + t] = ring.ofun("%s|%d|" % (self.name, i * n + j), a)
+        self.calls.append(("gradient", x))
+        return [P_, x[-1]]
+
+    def hessian(self, x, out=None):
+        F = x[0]
+        n = self.dim
+        A_ = np.empty((n, n, n, n) + F.shape[2:], dtype=object)
+        for t in np.ndindex(*F.shape[2:]):
+            a = self._args(F, t)
+            for i, j, k, l in np.ndindex(n, n, n, n):
+                A_[(i, j, k, l) + t] = ring.ofun("%s|%d|%d" % (self.name, i * n + j, k * n + l), a)
+        self.calls.append(("hessian", x))
+        return [A_]
+
+
 def mixed_block_obligations(col, label, cls, F, p, J, grads, hess, which=None):
     """grads = [gF, gp, gJ]; hess = [FF, Fp, FJ, pp, pJ, JJ] (None = zero block)"""
     gF, gp, gJ = grads
@@ -433,6 +474,16 @@ def run_nearly(col, tier):
         col.add("C03.O4", "%s.gradient F" % label, "stress == P(F) + p * d det F/dF", not bad, str(bad))
         mixed_block_obligations(col, label, cls, F, p, J, g[:3], h)
         col.add("C03.O1u", "%s inputs" % label, "F, p, J unchanged", same_arrays(F, F0) and same_arrays(p, p0) and same_arrays(J, J0))
+    # stress-based inner material (tangent without major symmetry): the (F,F) block is the derivative of the returned stress
+    ring.reset()
+    it = new_interp()
+    cls = it.get("felupe.constitution._mixed:NearlyIncompressible")
+    umat = it.call(cls, [], dict(material=OpaqueStress("Ps"), bulk=sym("bulk", True)))
+    F, p, J = Fsym(), scalar_field("p", positive=False), scalar_field("J")
+    sv = npmodel.zeros((0, 1, 1))
+    g = it.call_method(umat, "gradient", [[F, p, J, sv]])
+    h = it.call_method(umat, "hessian", [[F, p, J, sv]])
+    mixed_block_obligations(col, "NearlyIncompressible(stress-based inner material)", cls, F, p, J, g[:3], h, which=["FF"])
     # with a real inner material and out= passing
     ring.reset()
     it = new_interp()
@@ -488,6 +539,17 @@ def run_threefield(col, blocks):
     col.add("C03.O1u", "%s inputs (%s)" % (label, blocks), "F unchanged", same_arrays(F, F0))
     if blocks.startswith("grad"):
         history_obligation(col, it, umat, label, cls, [F, p, J, sv], [Fsym(name="G"), scalar_field("p2", positive=False), scalar_field("J2"), sv], ngrad=3)
+    else:
+        # an inner material given by its stress (no potential, tangent without major symmetry): the (F,F) block is still the derivative of
+        # the returned stress -- F:A and A:F are different contractions
+        ring.reset()
+        it = new_interp()
+        cls = it.get("felupe.constitution._mixed:ThreeFieldVariation")
+        umat = it.call(cls, [], dict(material=OpaqueStress("Ps")))
+        F, p, J = Fsym(), scalar_field("p", positive=False), scalar_field("J")
+        g = it.call_method(umat, "gradient", [[F, p, J, sv]])
+        h = it.call_method(umat, "hessian", [[F, p, J, sv]])
+        mixed_block_obligations(col, label + "(stress-based inner material)", cls, F, p, J, g[:3], h, which=["FF"])
     finish_info(col, it)
 
 
